@@ -40,6 +40,7 @@ Proof. reflexivity. Qed.
 (* ================================================================ the generated tables: what this proof uses *)
 Lemma T_int : table_get prefix_fns token_INT = Some "parseIntegerLiteral"%string. Proof. vm_compute. reflexivity. Qed.
 Lemma T_ident : table_get prefix_fns token_IDENT = Some "parseIdentifier"%string. Proof. vm_compute. reflexivity. Qed.
+Lemma T_float : table_get prefix_fns token_FLOAT = Some "parseFloatLiteral"%string. Proof. vm_compute. reflexivity. Qed.
 Lemma T_string : table_get prefix_fns token_STRING = Some "parseStringLiteral"%string. Proof. vm_compute. reflexivity. Qed.
 Lemma T_true : table_get prefix_fns token_TRUE = Some "parseBoolean"%string. Proof. vm_compute. reflexivity. Qed.
 Lemma T_false : table_get prefix_fns token_FALSE = Some "parseBoolean"%string. Proof. vm_compute. reflexivity. Qed.
@@ -138,6 +139,8 @@ Qed.
 
 (* ---- leaves *)
 Lemma prefix_int f s : prefixFn conv (S f) "parseIntegerLiteral" s = parseIntegerLiteral conv s.
+Proof. reflexivity. Qed.
+Lemma prefix_float f s : prefixFn conv (S f) "parseFloatLiteral" s = parseFloatLiteral conv s.
 Proof. reflexivity. Qed.
 Lemma prefix_ident f s : prefixFn conv (S f) "parseIdentifier" s = parseIdentifier s.
 Proof. reflexivity. Qed.
@@ -239,7 +242,9 @@ Fixpoint lit_tree (v : value) {struct v} : node :=
   | VFloat FNaN => NIdent (mkTok token_IDENT (B"NaN"))
   | VFloat (FInf false) => NPrefix (tok_of t_plus) (Some (NIdent (mkTok token_IDENT (B"Inf"))))
   | VFloat (FInf true) => NPrefix (tok_of t_minus) (Some (NIdent (mkTok token_IDENT (B"Inf"))))
-  | VFloat (FFin _ _ _) => NIdent (mkTok token_IDENT [])
+  | VFloat (FFin neg m e) =>
+    let leaf := NFloat (tok_of (float_tok (fmt_float_abs m e))) (bits_of_fl (FFin false m e)) in
+    if neg then NPrefix (tok_of t_minus) (Some leaf) else leaf
   | VBool true => NBool (mkTok token_TRUE (B"true")) true
   | VBool false => NBool (mkTok token_FALSE (B"false")) false
   | VNil => NIdent (mkTok token_IDENT (B"nil"))
@@ -263,11 +268,12 @@ Proof.
   cbn [lit_tree]. f_equal. induction l as [|[k x] r IH]; [reflexivity|]. cbn [map]. rewrite <- IH. reflexivity.
 Qed.
 
-(* the domain of the parsing theorem: lex_dom plus integers whose magnitude ParseInt accepts *)
+(* the shape part of the domain of the parsing theorem: integers whose magnitude ParseInt accepts, float texts in
+   plain decimal form (what the number conversion must do on them is [pdom], inside the section) *)
 Fixpoint par_dom (v : value) {struct v} : bool :=
   match v with
   | VInt z => Z.ltb min_int64 z && Z.leb z max_int64
-  | VFloat (FFin _ _ _) => false
+  | VFloat (FFin _ m e) => plain_decimal (fmt_float_abs m e)
   | VArr l => forallb par_dom l
   | VMap l =>
     (fix go (ps : list (value * value)) : bool :=
@@ -300,7 +306,9 @@ Lemma vtoks_first v : par_dom v = true ->
 Proof.
   intro D. destruct v as [z|f|b| |s|l|l|k s]; cbn [par_dom] in D; try discriminate.
   - destruct z; cbn [vtoks]; eexists; eexists; (split; [reflexivity|vm_compute; repeat split]).
-  - destruct f as [|[|]|]; try discriminate; cbn [vtoks]; eexists; eexists; (split; [reflexivity|vm_compute; repeat split]).
+  - destruct f as [|[|]|neg m e]; cbn [vtoks]; try (eexists; eexists; (split; [reflexivity|vm_compute; repeat split])).
+    destruct neg; cbn [app]; [eexists; eexists; (split; [reflexivity|vm_compute; repeat split])|].
+    unfold float_tok. destruct (split_dot (fmt_float_abs m e)) as [a [b|]]; eexists; eexists; (split; [reflexivity|vm_compute; repeat split]).
   - destruct b; cbn [vtoks]; eexists; eexists; (split; [reflexivity|vm_compute; repeat split]).
   - cbn [vtoks]; eexists; eexists; (split; [reflexivity|vm_compute; repeat split]).
   - cbn [vtoks]; eexists; eexists; (split; [reflexivity|vm_compute; repeat split]).
@@ -378,6 +386,62 @@ Proof.
   rewrite Hleaf by lia. rewrite exprLoop_stop; [|exact Hr|].
   - rewrite cur_st_at. rewrite peekIs_st_at. destruct (tail_facts rest Hr) as [_ [HL _]]. rewrite HL. reflexivity.
   - unfold stops. destruct (tail_facts rest Hr) as [_ [_ [_ [HP _]]]]. exact HP.
+Qed.
+
+(* what the number conversion must do on the text of a finite float: the magnitude's bit pattern; when the text has no
+   point (1e21 prints as an integer) ParseInt must reject it first (it is beyond int64) *)
+Definition float_conv_ok (m : N) (e : Z) : bool :=
+  let t := fmt_float_abs m e in
+  match split_dot t with
+  | (_, Some _) => opt_n_eqb (conv_float conv t) (bits_of_fl (FFin false m e))
+  | (_, None) =>
+    (match conv_int conv t with None => true | Some _ => false end) &&
+    opt_n_eqb (conv_float conv t) (bits_of_fl (FFin false m e))
+  end.
+
+Fixpoint pdom (v : value) {struct v} : bool :=
+  match v with
+  | VInt z => Z.ltb min_int64 z && Z.leb z max_int64
+  | VFloat (FFin _ m e) => plain_decimal (fmt_float_abs m e) && float_conv_ok m e
+  | VArr l => forallb pdom l
+  | VMap l =>
+    (fix go (ps : list (value * value)) : bool :=
+       match ps with [] => true | (k, x) :: r => pdom k && pdom x && go r end) l
+  | VTxt _ _ => false
+  | _ => true
+  end.
+
+Lemma pdom_par : forall v, pdom v = true -> par_dom v = true.
+Proof.
+  induction v using value_ind2; intro D; cbn [pdom par_dom] in *; try assumption.
+  - destruct f; try reflexivity. apply andb_true_iff in D. destruct D as [D _]. exact D.
+  - induction H as [|x r Hx Hr IH]; [reflexivity|]. cbn [forallb] in *.
+    apply andb_true_iff in D. destruct D as [D1 D2]. rewrite (Hx D1). exact (IH D2).
+  - induction H as [|[k x] r Hx Hr IH]; [reflexivity|].
+    apply andb_true_iff in D. destruct D as [D12 D3]. apply andb_true_iff in D12. destruct D12 as [D1 D2].
+    cbn [fst snd] in Hx. destruct Hx as [Hk Hv]. rewrite (Hk D1), (Hv D2). exact (IH D3).
+Qed.
+
+Lemma opt_n_eqb_eq o b : opt_n_eqb o b = true -> o = Some b.
+Proof. destruct o as [x|]; cbn [opt_n_eqb]; [|discriminate]. intro H. apply N.eqb_eq in H. subst. reflexivity. Qed.
+
+(* the magnitude token of a finite float is a leaf *)
+Lemma parse_float_tok m e f prec p rest :
+  float_conv_ok m e = true -> (1 <= f)%nat -> tail_ok rest = true ->
+  parseExpression conv (S f) prec (st_at p (float_tok (fmt_float_abs m e) :: rest)) =
+  exprLoop conv f prec (Some (NFloat (tok_of (float_tok (fmt_float_abs m e))) (bits_of_fl (FFin false m e))))
+           (st_at p (float_tok (fmt_float_abs m e) :: rest)).
+Proof.
+  intros Hc Hf Hr. unfold float_conv_ok in Hc. cbv zeta in Hc. unfold float_tok.
+  destruct (split_dot (fmt_float_abs m e)) as [a [b|]].
+  - apply (parse_leaf _ "parseFloatLiteral"); [apply T_float|reflexivity| |exact Hf|exact Hr].
+    intros f' s Hcur Hp. rewrite prefix_float. unfold parseFloatLiteral. rewrite Hcur. cbn [ptk pk tlit].
+    rewrite (opt_n_eqb_eq _ _ Hc). reflexivity.
+  - apply andb_true_iff in Hc. destruct Hc as [Hi Hfl].
+    apply (parse_leaf _ "parseIntegerLiteral"); [apply T_int|reflexivity| |exact Hf|exact Hr].
+    intros f' s Hcur Hp. rewrite prefix_int. unfold parseIntegerLiteral, parseFloatLiteral. rewrite Hcur. cbn [ptk pk tlit].
+    destruct (conv_int conv (fmt_float_abs m e)); [discriminate|].
+    rewrite (opt_n_eqb_eq _ _ Hfl). reflexivity.
 Qed.
 
 (* ---- the element loop of an array literal *)
@@ -518,9 +582,9 @@ Qed.
 Lemma of_to_N z : 0 <= z -> Z.of_N (Z.to_N z) = z.
 Proof. intro H. apply Z2N.id. exact H. Qed.
 
-Theorem parse_value : forall v, par_dom v = true -> parses v.
+Theorem parse_value : forall v, pdom v = true -> parses v.
 Proof.
-  induction v using value_ind2; intro D; cbn [par_dom] in D; try discriminate.
+  induction v using value_ind2; intro D; cbn [pdom] in D; try discriminate.
   - (* integers *)
     apply andb_true_iff in D. destruct D as [D1 D2]. apply Z.ltb_lt in D1. apply Z.leb_le in D2.
     intros f prec p rest Hf Ht. cbn [need] in Hf.
@@ -533,7 +597,14 @@ Proof.
       intros f' p' Hf'. apply (parse_int (N.pos q)); [unfold min_int64, max_int64 in *; cbn; lia|exact Hf'|exact Ht].
   - (* NaN, +Inf, -Inf *)
     intros f0 prec p rest Hf Ht. cbn [need] in Hf.
-    destruct f as [|[|]|]; try discriminate; cbn [vtoks lit_tree app].
+    destruct f as [|[|]|neg m e]; cbn [vtoks lit_tree app].
+    4: {
+      apply andb_true_iff in D. destruct D as [_ Dc]. destruct neg; cbn [app].
+      - exists (pk t_minus), (float_tok (fmt_float_abs m e)).
+        apply (parse_signed t_minus (float_tok (fmt_float_abs m e)));
+          [apply T_minus|reflexivity| |lia|exact Ht].
+        intros f' p' Hf'. apply parse_float_tok; [exact Dc|exact Hf'|exact Ht].
+      - exists p, (float_tok (fmt_float_abs m e)). apply parse_float_tok; [exact Dc|lia|exact Ht]. }
     + exists p, (ptk token_IDENT (B"NaN")). apply parse_ident; [lia|exact Ht].
     + exists (pk t_minus), (ptk token_IDENT (B"Inf")).
       apply (parse_signed t_minus (ptk token_IDENT (B"Inf")) (NIdent (mkTok token_IDENT (B"Inf"))));
@@ -564,7 +635,7 @@ Proof.
     assert (HP : Forall parses l /\ forallb par_dom l = true).
     { clear -H D. induction H as [|x r Hx Hr IH]; [split; [constructor|reflexivity]|].
       cbn [forallb] in D. apply andb_true_iff in D. destruct D as [D1 D2]. destruct (IH D2) as [I1 I2].
-      split; [constructor; [exact (Hx D1)|exact I1]|]. cbn [forallb]. rewrite D1, I2. reflexivity. }
+      split; [constructor; [exact (Hx D1)|exact I1]|]. cbn [forallb]. rewrite (pdom_par x D1), I2. reflexivity. }
     destruct HP as [HP HD].
     cbn [vtoks lit_tree app]. rewrite <- app_assoc. cbn [app].
     rewrite parseExpression_S. rewrite curIs_st_at. change (Z.eqb (pty t_lbracket) token_EOL) with false.
@@ -594,7 +665,8 @@ Proof.
     { clear -H D. induction H as [|[k x] r Hx Hr IH]; [constructor|].
       apply andb_true_iff in D. destruct D as [D12 D3]. apply andb_true_iff in D12. destruct D12 as [D1 D2].
       cbn [fst snd] in Hx. destruct Hx as [Hk Hv].
-      constructor; [|exact (IH D3)]. unfold pair_parses. cbn [fst snd]. auto. }
+      constructor; [|exact (IH D3)]. unfold pair_parses. cbn [fst snd].
+      repeat split; [exact (Hk D1)|exact (Hv D2)|exact (pdom_par k D1)|exact (pdom_par x D2)]. }
     rewrite vtoks_map_unfold, lit_tree_map_unfold. cbn [app]. rewrite <- app_assoc. cbn [app].
     rewrite parseExpression_S. rewrite curIs_st_at. change (Z.eqb (pty t_lbrace) token_EOL) with false.
     rewrite cur_st_at. change (pty t_lbrace) with token_LBRACE. rewrite T_lbrace.
